@@ -9,13 +9,21 @@
    its ends inside the groups of its parent's ends, the groups are disjoint).  Not proved as one theorem: the
    instantiation of (4) with the index-based right-hand sides of the two models (the identification of the
    per-flow rates of C01 at the aggregated state, which for infection flows involves the force of infection of the
-   stratified model), the age case of (4) (ageing flows stay inside one group: covered by the generic statement,
-   not instantiated); those, strain sums and proportionate mixing are established by the metamorphic oracle and the
-   correspondence only (DESIGN.md 6.3). *)
+   stratified model); that, strain sums and proportionate mixing are established by the metamorphic oracle and the
+   correspondence only (DESIGN.md 6.3).  (4) holds for the age stratification as well (C03_assembly_built): the
+   ageing flows it adds stay inside one group of copies and cancel.  For the population-proportional flows
+   (transition and death flows with rates that do not read the state) the flow-by-flow identity is proved too, which
+   and so is the one for importation and absolute flows, which
+   gives one whole-model statement for models made of such flows (C03_linear_models): at ANY state of the
+   stratified model, summing the net rates over the copies of a compartment gives that compartment's net rate at
+   the aggregated state.  What remains oracle-only: entry flows (crude / replacement births, whose law reads the
+   total population or the total deaths), infection flows (the force of infection of the stratified model), and the
+   identification of these flow-by-flow rates with the index arithmetic of get_flow_rates (C01 proves it for each
+   model separately). *)
 From Coq Require Import QArith Qcanon List String Bool.
 Import ListNotations.
 From S2 Require Import Base.Num Base.Arr Model.Expr Model.Struct Model.Rates Model.Solvers Spec.RatesSpec
-     Proofs.NumQc Proofs.BuildProofs Proofs.CopiesProofs Proofs.AggregateProofs Proofs.InvarianceProofs Proofs.Assembly Props.Examples.
+     Proofs.NumQc Proofs.BuildProofs Proofs.CopiesProofs Proofs.AggregateProofs Proofs.InvarianceProofs Proofs.Assembly Proofs.SameKeys Proofs.AgeAssembly Proofs.TimeShift Proofs.Scaling Proofs.AggregateRates Proofs.AggregateModel Proofs.AggregateTotals Proofs.AggregateAll Model.Program Props.Examples.
 
 (* the copies of an unadjusted stratification carry the parent's weight, or the parent's weight
    divided by the number of strata for entry flows, destination-only stratified transitions
@@ -90,6 +98,42 @@ Theorem C03_assembly :
 Proof. exact stratified_net_rates. Qed.
 Print Assumptions C03_assembly.
 
+(* ... and for every model the build API produces and EVERY kind of stratification - ordinary, partial, strain or age:
+   the ageing flows an age stratification adds connect copies of one and the same compartment, so they cancel in
+   every group total *)
+Theorem C03_assembly_built :
+  forall (O : NumOps) (T : NumTheory O) t0 t1 h comps inf ops (m : model) (s0 : strat) (m' : model) (rate rate' : flow -> F O),
+    build_ok t0 t1 h comps inf ops = Some m -> NoDup (s_strata (normalise_strat s0)) ->
+    stratify_with m s0 = Ok m' ->
+    (forall f, In f (m_flows m) -> fsum O (map rate' (copies_of (normalise_strat s0) f)) = rate f) ->
+    forall c, In c (m_comps m) ->
+      fsum O (map (fun c' => net_rate O rate' (m_flows m') c') (group (normalise_strat s0) c))
+      = net_rate O rate (m_flows m) c.
+Proof. intros O T. exact (stratified_net_rates_built O T). Qed.
+Print Assumptions C03_assembly_built.
+
+(* whole models WITHOUT INFECTION FLOWS: every model the build API produces (with distinct compartment names) whose flows
+   are transition, death, importation, absolute, crude-birth and replacement-birth flows with rates that do not mention
+   the state; every ordinary, partial or age stratification without flow adjustments; every parameter set, time and state
+   x' of the stratified model.  ni_rate is the documented law of each kind (C01): weight x source, weight x total
+   population, weight x total death rate, or the weight itself.  Summed over the copies of a compartment, the net rates
+   of the stratified model at x' are that compartment's net rate in the unstratified model at the aggregated state *)
+Theorem C03_noninfection_models :
+  forall (O : NumOps) (T : NumTheory O) t0 t1 h comps inf ops (m : model) (s0 : strat) (m' : model),
+    build_ok t0 t1 h comps inf ops = Some m -> NoDup (m_comps m) ->
+    stratify_with m s0 = Ok m' ->
+    NoDup (s_strata (normalise_strat s0)) -> s_strata (normalise_strat s0) <> [] ->
+    is_strain (s_kind (normalise_strat s0)) = false -> s_fadj (normalise_strat s0) = [] ->
+    (is_age (s_kind (normalise_strat s0)) = true ->
+     List.length (filter (fun st => String.eqb st "0") (s_strata (normalise_strat s0))) = 1%nat) ->
+    (forall f, In f (m_flows m) -> ni_flow f) ->
+    forall (p : env O) (t : F O) (x' : list (F O)), List.length x' = List.length (m_comps m') ->
+    forall c, In c (m_comps m) ->
+      fsum O (map (fun c' => net_rate O (ni_rate O p t m' x') (m_flows m') c') (group (normalise_strat s0) c))
+      = net_rate O (ni_rate O p t m (aggx O (normalise_strat s0) (m_comps m) x')) (m_flows m) c.
+Proof. intros O T. exact (noninfection_model_aggregates O T). Qed.
+Print Assumptions C03_noninfection_models.
+
 (* non-vacuity: in the example model the two copies of the replacement-birth flow carry weight 1/2
    each (entry flow into a newly stratified destination) and the universal-death copies keep 1/64 *)
 Example C03_nonvacuous :
@@ -113,3 +157,41 @@ Proof.
   split; [reflexivity|].
   vm_compute in E. injection E as <-. vm_compute. eexists. split; reflexivity.
 Qed.
+
+(* non-vacuity of the age case: an age stratification [0, 5] of the same pre-stratification model is accepted, is an age
+   stratification, and adds three ageing flows (one per compartment) to the copies of the existing flows *)
+Definition ex_agestrat : strat :=
+  {| s_name := "age"; s_kind := SAge; s_strata := ["0"; "5"]%string; s_comps := ["S"; "I"; "R"]%string;
+     s_split := []; s_fadj := []; s_iadj := []; s_mix := None |}.
+Example C03_assembly_age_nonvacuous :
+  match Model.Program.build_ok 0 2 (1#2) ["S"; "I"; "R"]%string ["I"]%string pre_ops with
+  | Some m0 => is_age (s_kind (normalise_strat ex_agestrat)) = true
+               /\ (exists m1, stratify_with m0 ex_agestrat = Ok m1
+                              /\ List.length (m_flows m1) = (List.length (flat_map (copies_of (normalise_strat ex_agestrat)) (m_flows m0)) + 3)%nat)
+  | None => False
+  end.
+Proof. vm_compute. split; [reflexivity|]. eexists. split; reflexivity. Qed.
+
+(* non-vacuity of C03_noninfection_models: S -> I -> R with progression, recovery, universal deaths, replacement births
+   and an importation flow, stratified by location without adjustments *)
+Definition frac_ops : list Model.Program.op :=
+  [ OpPop [("S"%string, EConst 900); ("I"%string, EConst 100)];
+    OpFlow (FlowSpec KTrans "prog" (EParam "beta") "S" "I" [] [] None false);
+    OpFlow (FlowSpec KTrans "rec" (EConst (1#2)) "I" "R" [] [] None false);
+    OpUDeath "d" (EConst (1#64));
+    OpFlow (FlowSpec KRepl "b" (EConst 1) "" "S" [] [] None false);
+    OpFlow (FlowSpec KImport "imp" (EAdd (EConst 1) ETime) "" "I" [] [] None false) ].
+Definition frac_strat : strat :=
+  {| s_name := "loc"; s_kind := SPlain; s_strata := ["a"; "b"; "c"]%string; s_comps := ["S"; "I"]%string;
+     s_split := []; s_fadj := []; s_iadj := []; s_mix := None |}.
+Definition ni_flow_b (f : flow) : bool :=
+  negb (is_infection (f_kind f))
+  && (match f_kind f with KTrans | KDeath => match f_src f with Some _ => true | None => false end | _ => true end)
+  && forallb state_free (flow_exprs f).
+Example C03_noninfection_nonvacuous :
+  match Model.Program.build_ok 0 2 (1#2) ["S"; "I"; "R"]%string ["I"]%string frac_ops with
+  | Some m0 => forallb ni_flow_b (m_flows m0) = true /\ List.length (m_flows m0) = 7%nat
+               /\ (exists m1, stratify_with m0 frac_strat = Ok m1 /\ List.length (m_comps m1) = 7%nat /\ List.length (m_flows m1) = 19%nat)
+  | None => False
+  end.
+Proof. vm_compute. split; [reflexivity|]. split; [reflexivity|]. eexists. repeat split. Qed.
